@@ -131,6 +131,22 @@ class P:
                 vals, _ = self.values(kind[f], self.default_of(f, kind[f], defaults), rng.randrange(1000))
                 chosen[f] = {k: v for k, v in vals.items() if rng.random() < 0.5}
             out.append(self.mk_case(chosen, settings, defaults, regs, rng))
+        # one ILL-TYPED environment value among well-typed ones (an integer with a trailing blank, a boolean spelled `off`): the collector
+        # either refuses to start (it does: a fatal start-up error) or - if it ever carries on - every OTHER variable still counts
+        self.illtyped = set()
+        ikeys = [f for f in keys if kind[f] == "int"]
+        bkeys = [f for f in keys if kind[f] == "bool"]
+        for i in range(12 if tier == "quick" else 120):
+            bad = rng.choice(ikeys + bkeys)
+            others = rng.sample([f for f in keys if f != bad], 6)
+            chosen = {f: {"env": self.values(kind[f], self.default_of(f, kind[f], defaults), 700 + i)[0]["env"]} for f in others}
+            line = self.mk_case(chosen, settings, defaults, regs)
+            tagd_ = {f: t for f, t, k in settings}
+            self.cases_json[line]["env"]["VFLOW_" + tagd_[bad].upper().replace("-", "_")] = rng.choice(["300 ", "off", "1e3", "yes please", "0x10", "+-5"])
+            line2 = line + " ILLTYPED " + bad
+            self.cases_json[line2] = self.cases_json[line]; self.expect[line2] = {f: v for f, v in self.expect[line].items() if f != bad}
+            self.illtyped.add(line2)
+            out.append(line2)
         # a string setting written `-flag value` BEFORE `-config <file>`, its value looking like a flag name; another setting in the file
         skeys = [f for f in keys if kind[f] == "string"]
         ikeys = [f for f in keys if kind[f] == "int"]
@@ -160,6 +176,10 @@ class P:
         return out
 
     def judge(self, line, impl, model):
+        if line in getattr(self, "illtyped", ()):
+            if impl.startswith("DRIVER-ERROR"):
+                return None          # refused to start
+            model = impl             # (the model has no ill-typed values: only the specification-built expectation decides here)
         if impl.startswith("DRIVER-ERROR"):
             return impl
         got = dict(kv.split("=", 1) for kv in impl.split(";"))
